@@ -13,7 +13,7 @@ From Irismod Require Import Genesis.Store.
     iterates), and [reachable_<mod>] proves [invb (abs (run h)) = true] for every history [h] from that
     model's proved invariants (plus small extra invariants proved over its step function).  The C12
     statements then quantify over histories. *)
-From Irismod Require Genesis.LinkRecord Genesis.LinkCoinswap Genesis.LinkRandom Genesis.LinkNft Genesis.LinkMt Genesis.LinkHtlc Genesis.LinkToken Genesis.LinkFarm Genesis.LinkHtlcParams.
+From Irismod Require Genesis.LinkRecord Genesis.LinkCoinswap Genesis.LinkRandom Genesis.LinkNft Genesis.LinkMt Genesis.LinkHtlc Genesis.LinkToken Genesis.LinkFarm Genesis.LinkHtlcParams Genesis.LinkOracle.
 
 Module LinkRecordC12.
 Import Genesis.LinkRecord.
@@ -379,3 +379,48 @@ Theorem htlc_params_history_import_is_open_part :
 Proof. exact LinkHtlcParams.htlc_params_history_import_is_open_part. Qed.
 Print Assumptions htlc_params_history_import_is_open_part.
 End LinkHtlcParamsC12.
+
+(** ** oracle: [invb] derived from the message-level model of the oracle group ([Oracle/Model.v], [Oracle/Proofs.v]
+    [Inv], [Inv_run], [feed_ctx_inj]) plus the invariant [VS] of [Genesis/LinkOracle.v] (every feed's values are in
+    ascending key order), for EVERY history of the model — no hypothesis on it.  The service module's request
+    contexts are the environment ([abs_env]: the contexts of the model state).  Left hand-written: nothing of
+    [invb]; [abs] takes the creator numbering (non-negative) and the descriptions' lengths (at most 280) as
+    parameters and sets the syntactic validity flags of name / aggregate function to true. *)
+Module LinkOracleC12.
+Import Genesis.LinkOracle.
+
+Theorem reachable_oracle :
+  forall rc desc dlen : Z -> Z, (forall a, 0 <= rc a) -> (forall n, dlen n <= 280) ->
+  forall h : list M.step, G.invb (abs rc desc dlen (M.run M.init h)) = true.
+Proof. exact LinkOracle.reachable_oracle. Qed.
+Print Assumptions reachable_oracle.
+
+Theorem oracle_history_export_validates :
+  forall rc desc dlen : Z -> Z, (forall a, 0 <= rc a) -> (forall n, dlen n <= 280) ->
+  forall h : list M.step,
+  G.validate (G.export (abs_env (M.run M.init h)) (abs rc desc dlen (M.run M.init h))) = true.
+Proof. exact LinkOracle.oracle_history_export_validates. Qed.
+Print Assumptions oracle_history_export_validates.
+
+(** import does not panic on any chain whose service module knows the feeds' request contexts *)
+Theorem oracle_history_import_total :
+  forall rc desc dlen : Z -> Z, (forall a, 0 <= rc a) -> (forall n, dlen n <= 280) ->
+  forall (h : list M.step) (eB : G.env),
+  (forall f, In f (G.feeds (abs rc desc dlen (M.run M.init h))) -> has (G.o_ctx (snd f)) eB = true) ->
+  G.import true eB (G.export (abs_env (M.run M.init h)) (abs rc desc dlen (M.run M.init h))) <> None.
+Proof. exact LinkOracle.oracle_history_import_total. Qed.
+Print Assumptions oracle_history_import_total.
+
+(** with the chain's own contexts on the new chain (which they are known: [contexts_known]): second export = first,
+    same feeds, every feed's value history reads the same *)
+Theorem oracle_history_fixpoint_and_queries :
+  forall rc desc dlen : Z -> Z, (forall a, 0 <= rc a) -> (forall n, dlen n <= 280) ->
+  forall h : list M.step,
+  let s := M.run M.init h in
+  exists s', G.import true (abs_env s) (G.export (abs_env s) (abs rc desc dlen s)) = Some s'
+    /\ G.export (abs_env s) s' = G.export (abs_env s) (abs rc desc dlen s)
+    /\ G.feeds s' = G.feeds (abs rc desc dlen s)
+    /\ forall f, In f (G.feeds (abs rc desc dlen s)) -> G.values_of s' (fst f) = G.values_of (abs rc desc dlen s) (fst f).
+Proof. exact LinkOracle.oracle_history_fixpoint_and_queries. Qed.
+Print Assumptions oracle_history_fixpoint_and_queries.
+End LinkOracleC12.
